@@ -44,7 +44,7 @@ def backward_cases(ctx, n2=None):
             data = "distinct"
             if op.startswith("max") and gi % 4 == 0:
                 data = "ints"            # repeated values: ties inside windows
-            P = cc.make_payload(rng, op, g, bias=(k % 2 == 0), form="tuple" if k % 3 else "int", data=data)
+            P = cc.make_payload(rng, op, g, bias=(k % 2 == 0), form="tuple" if k % 3 else "int", data=data, layout=("C", "F", "C", "S")[gi % 4])
             if P["form"] == "int" and (g["kH"], g["sH"], g["pH"], g["dH"]) != (g["kW"], g["sW"], g["pW"], g["dW"]):
                 P["form"] = "tuple"
             cases.append((P, (op,) + cc.descr2(g), cc.nontrivial2(g), data))
@@ -52,7 +52,7 @@ def backward_cases(ctx, n2=None):
         for op in OPS1:
             k += 1
             data = "ints" if (op.startswith("max") and gi % 4 == 0) else "distinct"
-            P = cc.make_payload(rng, op, g, bias=(k % 2 == 0), data=data)
+            P = cc.make_payload(rng, op, g, bias=(k % 2 == 0), data=data, layout=("C", "F", "C", "S")[gi % 4])
             cases.append((P, (op, g["k"], g["s"], g["p"], g["d"], g["W"]), cc.nontrivial1(g), data))
     return cases, len(g2), len(g1)
 
@@ -155,6 +155,7 @@ def run_part_c02(ctx):
     for i, v in sorted(verdicts, key=lambda iv: len(json.dumps(payloads[iv[0]])))[:3]:
         P = payloads[i]
         ctx.witness("nn.functional.%s/backward" % P["op"], "vjp", P, v["expected"], v["observed"], v.get("note", ""))
+    run_two_branch(ctx, "C02")
 
 
 # ------------------------------------------------------------------------------------------------- C14
@@ -200,6 +201,156 @@ def compose_pool(P, backward):
         out.backward(sg.Tensor(np.array(P["up"], dtype=np.float64)))
         res["grads"] = {"x": np.array(x.grad.data)}
     return res
+
+
+# ------------------------------------------------------------------------------------------------- two applications before backward
+def fused_t(P, x, w, b):
+    impl = _impl()
+    NF = impl.NF
+    ks, st, pd, dl = cc.geo_args(P)
+    op = P["op"]
+    if op == "conv2d":
+        return NF.conv2d(x, w, b, st, pd, dl)
+    if op == "conv1d":
+        return NF.conv1d(x, w, b, st, pd, dl)
+    return getattr(NF, op)(x, ks, st, pd, dl)
+
+
+def composed_t(P, x, w, b):
+    """the documented composition, on tensors (2-D ops)"""
+    impl = _impl()
+    np, NF = impl.np, impl.NF
+    g = P["g"]
+    ks, st, pd, dl = cc.geo_args(P)
+    lH = cc.out_size(g["H"], g["kH"], g["sH"], g["pH"], g["dH"]); lW = cc.out_size(g["W"], g["kW"], g["sW"], g["pW"], g["dW"])
+    if P["op"] == "conv2d":
+        Co = w.shape[0]
+        out = w.reshape((Co, -1)) @ NF.unfold(x, ks, dl, st, pd)
+        if b is not None:
+            out = out + b.reshape((1, Co, 1))
+        return out.reshape((g["N"], Co, lH, lW))
+    ismax = P["op"].startswith("max")
+    U = NF.unfold(x, ks, dl, st, pd, -np.inf if ismax else 0)
+    V = U.reshape((g["N"], g["C"], g["kH"] * g["kW"], lH * lW))
+    return (V.max(dim=2) if ismax else V.mean(dim=2)).reshape((g["N"], g["C"], lH, lW))
+
+
+def two_branch(P, f):
+    """y1 = f(x1), y2 = f(x2) with shared weights, both forwards first, then y1.backward(up1), y2.backward(up2)"""
+    impl = _impl()
+    np, sg = impl.np, impl.synapgrad
+    x1, x2 = cc.T(P["x"], True), cc.T(P["x2"], True)
+    w = cc.T(P["w"], True) if "w" in P else None
+    b = cc.T(P["b"], True) if P.get("b") is not None else None
+    y1 = f(P, x1, w, b)
+    y2 = f(P, x2, w, b)
+    res = {"out1": np.array(y1.data, dtype=np.float64), "out2": np.array(y2.data, dtype=np.float64)}
+    if "up" in P:
+        y1.backward(sg.Tensor(np.array(P["up"], dtype=np.float64)))
+        y2.backward(sg.Tensor(np.array(P["up2"], dtype=np.float64)))
+        res["grads"] = {"x1": np.array(x1.grad.data, dtype=np.float64), "x2": np.array(x2.grad.data, dtype=np.float64)}
+        if w is not None:
+            res["grads"]["w"] = np.array(w.grad.data, dtype=np.float64)
+        if b is not None:
+            res["grads"]["b"] = np.array(b.grad.data, dtype=np.float64)
+    return res
+
+
+def independent_runs(P):
+    """the same two applications as two independent forward/backward runs; shared-operand gradients added"""
+    np = _impl().np
+    P1 = dict(P); P2 = dict(P, x=P["x2"], up=P["up2"])
+    r1, r2 = cc.run_impl(P1, True), cc.run_impl(P2, True)
+    g = {"x1": r1["grads"]["x"], "x2": r2["grads"]["x"]}
+    for nm in ("w", "b"):
+        if nm in r1["grads"]:
+            g[nm] = r1["grads"][nm] + r2["grads"][nm]
+    return {"out1": r1["out"], "out2": r2["out"], "grads": g}
+
+
+def two_branch_payloads(ctx, ops, n):
+    """geometries with padding (so that a padded buffer exists), two different inputs of the same shape"""
+    rng = ctx.rng
+    res = []
+    g2 = [g for g in cc.geometry_2d(rng, True) if g["pH"] + g["pW"] > 0]
+    g1 = [g for g in cc.geometry_1d(rng, True) if g["p"] > 0]
+    rng.shuffle(g2); rng.shuffle(g1)
+    for op in ops:
+        for g in (g2 if cc.is2d(op) else g1)[:n]:
+            P = cc.make_payload(rng, op, g, bias=True, data="distinct")
+            P["x2"] = cc.make_payload(rng, op, g, bias=True, data="distinct")["x"]
+            res.append(P)
+    return res
+
+
+def two_branch_term(P, grads):
+    op, g = P["op"], P["g"]
+    np = _impl().np
+    G = cc.geom2_coq(g) if cc.is2d(op) else cc.geom1_coq(g)
+    if op in ("conv2d", "conv1d"):
+        Co = np.array(P["w"]).shape[0]
+        return "quad_eqb (run_%s_bwd2 %s %d %s %s %s %s %s) (%s, %s, %s, %s)" % (
+            op, G, Co, cc.zl(P["x"]), cc.zl(P["x2"]), cc.zl(P["w"]), cc.zl(P["up"]), cc.zl(P["up2"]),
+            cc.zl(grads["x1"]), cc.zl(grads["x2"]), cc.zl(grads["w"]), cc.zl(grads["b"]))
+    r = "run_%s_bwd" % op.replace("_", "")
+    return "zl_eqb (%s %s %s %s) %s && zl_eqb (%s %s %s %s) %s" % (r, G, cc.zl(P["x"]), cc.zl(P["up"]), cc.zl(grads["x1"]),
+                                                                   r, G, cc.zl(P["x2"]), cc.zl(P["up2"]), cc.zl(grads["x2"]))
+
+
+def run_two_branch(ctx, pid):
+    """C02: gradients of two applications with shared weights = the model's per-application gradients added up;
+    C14: the same for the composition, and fused == composition on the implementation"""
+    rng = ctx.rng
+    np = _impl().np
+    ops = ("conv2d", "max_pool2d", "conv1d", "max_pool1d") if pid == "C02" else ("conv2d", "max_pool2d")
+    payloads = two_branch_payloads(ctx, ops, 25 if ctx.quick else 100)
+    terms, verdicts, kept = [], [], []
+    for P in payloads:
+        r0 = cc.call(cc.run_impl, P)
+        if r0[0] != "ok":
+            continue
+        cc.add_upstream(rng, P, r0[1]["out"].shape)
+        P["up2"] = cc.distinct_ints(rng, r0[1]["out"].shape).tolist()
+        rf = cc.call(two_branch, P, fused_t)
+        if rf[0] != "ok":
+            terms.append("false"); kept.append(P)
+            verdicts.append((len(kept) - 1, {"expected": "two applications then two backward passes complete", "observed": "raises " + rf[1], "note": "raised"}))
+            continue
+        if pid == "C02":
+            terms.append(two_branch_term(P, rf[1]["grads"])); kept.append(P)
+            ri = cc.call(independent_runs, P)
+            if ri[0] == "ok" and any(not np.array_equal(rf[1]["grads"][n], ri[1]["grads"][n]) for n in rf[1]["grads"]):
+                bad = [n for n in rf[1]["grads"] if not np.array_equal(rf[1]["grads"][n], ri[1]["grads"][n])][0]
+                verdicts.append((len(kept) - 1, {"expected": {"gradient": bad, "two independent forward/backward runs": cc.tolist(ri[1]["grads"][bad])},
+                                                  "observed": cc.tolist(rf[1]["grads"][bad]),
+                                                  "note": "two applications of the op before backward: gradient of '%s' differs from the independent runs" % bad}))
+        else:
+            rc = cc.call(two_branch, P, composed_t)
+            if rc[0] != "ok":
+                terms.append("false"); kept.append(P)
+                verdicts.append((len(kept) - 1, {"expected": "composition defined", "observed": "raises " + rc[1], "note": "one side raises"}))
+                continue
+            terms.append(two_branch_term(P, rc[1]["grads"])); kept.append(P)
+            diff = None
+            for key in ("out1", "out2"):
+                if not np.array_equal(rf[1][key], rc[1][key]):
+                    diff = key
+            for nm in rf[1]["grads"]:
+                if diff is None and not np.array_equal(rf[1]["grads"][nm], rc[1]["grads"][nm]):
+                    diff = "gradient of " + nm
+            if diff is not None:
+                key = diff.replace("gradient of ", "")
+                fv = rf[1]["grads"].get(key, rf[1].get(key)); cv = rc[1]["grads"].get(key, rc[1].get(key))
+                verdicts.append((len(kept) - 1, {"expected": "fused == composition (%s), two applications before backward" % diff,
+                                                  "observed": {"fused": cc.tolist(fv), "composition": cc.tolist(cv)}, "note": "identity fails on the implementation"}))
+    bad, errors = cc.run_bool_cases(ctx, "twobranch", terms)
+    mism = list(errors) + [{"case": i, "input": kept[i]} for i in bad[:50]] + [{"case": i} for i in bad[50:]]
+    ctx.tie("convpool/two applications with shared operands before backward", "correspondence", len(terms), len(terms), mism,
+            note="y1 = f(x1), y2 = f(x2) (same weights, same padded geometry, different data), then y1.backward(g1), y2.backward(g2): every gradient vs the "
+                 "model's per-application gradients added up" + ("" if pid == "C02" else "; f = the composition; fused == composition exactly"))
+    for i, v in sorted(verdicts, key=lambda iv: len(json.dumps(kept[iv[0]])))[:2]:
+        P = kept[i]
+        ctx.witness("nn.functional.%s/two applications" % P["op"], "two-branch", P, v["expected"], v["observed"], v.get("note", ""))
 
 
 def run_part_c14(ctx):
@@ -263,6 +414,7 @@ def run_part_c14(ctx):
     for i, v in sorted(verdicts, key=lambda iv: len(json.dumps(payloads[iv[0]])))[:3]:
         P = payloads[i]
         ctx.witness("nn.functional.%s vs composition" % P["op"], "fused-identity", P, v["expected"], v["observed"], v.get("note", ""))
+    run_two_branch(ctx, "C14")
 
 
 def run_part(ctx):
@@ -277,6 +429,15 @@ def run_part(ctx):
 def replay_part(ctx, data):
     """Re-run a stored conv/pool witness (C02 / C14 parts).  Returns None for witnesses of other parts."""
     np = _impl().np
+    if data.get("class") == "two-branch" and isinstance(data.get("input"), dict) and "x2" in data["input"]:
+        P = data["input"]
+        rf, ri = cc.call(two_branch, P, fused_t), cc.call(independent_runs, P)
+        same = rf[0] == "ok" and ri[0] == "ok" and all(np.array_equal(rf[1]["grads"][n], ri[1]["grads"][n]) for n in rf[1]["grads"])
+        if same and cc.is2d(P["op"]) and not P["op"].startswith("avg"):
+            rc = cc.call(two_branch, P, composed_t)
+            same = rc[0] == "ok" and all(np.array_equal(rf[1]["grads"][n], rc[1]["grads"][n]) for n in rf[1]["grads"])
+        print("two applications before backward agree with independent runs / the composition:", same)
+        return 0 if same else 1
     if data.get("class") not in ("vjp", "fused-identity") or not str(data.get("site", "")).startswith("nn.functional."):
         return None
     P = data["input"]
